@@ -108,12 +108,19 @@ func (g cgraph) build(perm []int, edgeOrder []int, errRot int) *resolve.Graph {
 		inv[nw] = old
 	}
 	rg := &resolve.Graph{}
+	multi := 0
 	for nw := 0; nw < n; nw++ {
 		old := inv[nw]
 		id := rg.AddNode(c13VK(g.labels[old]))
 		es := g.errs[old]
+		rot := 0
+		if len(es) > 1 {
+			// errRot is a bit mask over the nodes that carry several errors: each list is rotated on its own
+			rot = errRot >> multi & 1
+			multi++
+		}
 		for k := range es {
-			rg.AddError(id, c13ErrReq, es[(k+errRot)%len(es)])
+			rg.AddError(id, c13ErrReq, es[(k+rot)%len(es)])
 		}
 	}
 	for _, ei := range edgeOrder {
@@ -222,8 +229,8 @@ func c13Variants(g cgraph, f func(perm, edgeOrder []int, errRot int)) {
 	}
 	maxErr := 1
 	for _, e := range g.errs {
-		if len(e) > maxErr {
-			maxErr = len(e)
+		if len(e) > 1 {
+			maxErr *= 2 // every subset of the multi-error lists is rotated
 		}
 	}
 	perm := make([]int, n)
